@@ -116,7 +116,7 @@ Lemma do_edit_inv s owner sym nm max mintable s' :
                                             (t_owner t) (t_contract t) (if nm =? 0 then t_name t else nm)) (tokens s)).
 Proof.
   unfold do_edit, token_by_symbol. intros H. destruct (get sym (tokens s)) as [t|] eqn:E; [|discriminate].
-  inv_if H. inv_if H. cbv zeta in H. inversion H. exists t.
+  inv_if H. inv_if H. inv_if H. cbv zeta in H. inversion H. exists t.
   apply Bool.negb_false_iff in E0. apply Z.eqb_eq in E0.
   repeat split; try assumption; try reflexivity.
   intros Hmax. apply Bool.andb_false_iff in E1. destruct E1 as [E1|E1].
@@ -644,8 +644,8 @@ Lemma cap_not_preserved_by_conversions :
     CapInv s0 /\ ~ CapOK (run s0 ms).
 Proof.
   exists (mkParams 0 0 1 STAKE true true).
-  exists [Issue 0 (0, 3) (6, 4) 1 0 10 10 true; Deploy GOV 1 (0, 3) (6, 4) 0; ToErc20 0 0 (6, 4) 5;
-          Edit 0 (0, 3) 0 5 0; FromErc20 0 0 (6, 4) 5].
+  exists [Issue 0 (0, 3) (6, 4) 1 0 0 10 true; Mint 0 (-2) (6, 4) 10; Deploy GOV 1 (0, 3) (6, 4) 0;
+          ToErc20 0 0 (6, 4) 5; Edit 0 (0, 3) 0 5 0; FromErc20 0 0 (6, 4) 5].
   cbv zeta. split; [apply genesis_CapInv; unfold MAXU64; lia|].
   intros C. specialize (C (0, 3)). vm_compute in C. specialize (C _ eq_refl). apply C. reflexivity.
 Qed.
